@@ -103,7 +103,7 @@ namespace occa {
       bool emptyTree = leaf.nestedRemove(c + 1,
                                          length - 1,
                                          valueIndex_);
-      if (emptyTree && (leaves.size() == 1)) {
+      if (emptyTree) {
         leaves.erase(it);
       }
     } else {
